@@ -151,17 +151,26 @@ RULE_PRIM = ("direction B at primitive level: the real codec primitives (every g
              "distinct_nontrivial = distinct (primitive, prefix width, element kind, byte order, width, pad, side, length class, outcome) tuples. ")
 
 
+RULE_PRIMMODEL = ("design model: PrimMachine.tla, exhaustive over MCPrims!AllCalls (fixed text: widths 0..3 x 6 pad bytes x both sides x all texts of length "
+                  "<= 4 over {00,41,C3,FF} plus pad-on-either-side shapes; scalars and lists: 4 element kinds x prefix widths 1/2/4/8 x both byte orders x "
+                  "0..2 non-palindromic elements; prefixed text and text lists; 8-bit prefixes at 254..257) with the invariants ExactWidth, ReadBack, "
+                  "PairRelation, WrapRefused; the deviation BreakPair must violate PairRelation. A: every case is executed on the real primitives. ")
+
+
 def c03(run):
+    run.prim_model_replay()
+    run.model("MCPrims.tla", "MCPrims_dev_pair.cfg", expect="PairRelation")
     run.trace("prim-pairs", Q(run, 1, 6))
     run.trace("roundtrip-canon", Q(run, 3, 40), types=[t for t in all_types() if t.split(".")[0] in ("bse", "sample")], seed_off=100)
     run.trace("roundtrip-canon", Q(run, 1, 10), seed_off=200)
-    return run.finish(RULE_PRIM + RULE_TRACE)
+    return run.finish(RULE_PRIMMODEL + RULE_PRIM + RULE_TRACE)
 
 
 def c13(run):
+    run.prim_model_replay()
     run.trace("prim-fixed", Q(run, 2, 30))
     run.trace("prim-fixed-sweep", 1, seed_off=100)
-    return run.finish(RULE_PRIM + "Widths 0..5,10,16,200; pads 00,20,30,80,E9,FF and a random one; both sides; texts of length 0..N+2 over {pad,00,20,41,C3,A9,FF,30} and random bytes.")
+    return run.finish(RULE_PRIMMODEL + RULE_PRIM + "Widths 0..5,10,16,200; pads 00,20,30,80,E9,FF and a random one; both sides; texts of length 0..N+2 over {pad,00,20,41,C3,A9,FF,30} and random bytes.")
 
 
 def c14(run):
@@ -174,9 +183,10 @@ def c14(run):
 
 
 def c18(run):
+    run.prim_model_replay()
     run.trace("prim-limits", Q(run, 1, 2), chunk=40)
     run.trace("msg-limits", Q(run, 1, 2), seed_off=100, chunk=6)
-    return run.finish(RULE_PRIM + "Lengths 0,1,254..257,300,511,512 behind 8-bit prefixes and 65535,65536 (thorough: 65534..65537,131072) behind 16-bit prefixes, every prefixed writer, both byte orders; message level: the pinned fields with 16-bit prefixes.",
+    return run.finish(RULE_PRIMMODEL + RULE_PRIM + "Lengths 0,1,254..257,300,511,512 behind 8-bit prefixes and 65535,65536 (thorough: 65534..65537,131072) behind 16-bit prefixes, every prefixed writer, both byte orders; message level: the pinned fields with 16-bit prefixes.",
                       )
 
 
@@ -252,6 +262,26 @@ def replay(run, path):
             log("VIOLATION property=%s replay=%s" % (rp["property"], path))
             return 1
         log("replay %s: accepted by the specification on the current tree" % path)
+        return 0
+    if rp.get("kind") in ("primcase", "behaviour"):
+        vd = run.build()
+        inp = os.path.join(run.scratch, "one.ndjson")
+        if rp["kind"] == "primcase":
+            open(inp, "w").write(json.dumps(rp["case"]) + "\n")
+            cmd = [vd, "replay-prims", "-in", inp, "-out", inp + ".res"]
+        else:
+            vals = os.path.join(run.scratch, "vals.ndjson")
+            open(vals, "w").write("\n".join(json.dumps(v) for v in rp["values"]) + "\n")
+            open(inp, "w").write(json.dumps(rp["behaviour"]) + "\n")
+            cmd = [vd, "replay", "-values", vals, "-in", inp, "-out", inp + ".res"]
+        p = subprocess.run(cmd, capture_output=True, text=True, env=dict(os.environ, VERIF_SCHEMA=SCHEMA))
+        if p.returncode != 0:
+            raise Broken("replay failed: " + p.stderr[-1500:])
+        r = json.loads(open(inp + ".res").read())
+        log("  %s: %s %s" % (rp["kind"], r["verdict"], r.get("why", "")))
+        if r["verdict"] != "ok":
+            log("VIOLATION property=%s replay=%s" % (rp["property"], path))
+            return 1
         return 0
     if rp.get("kind") == "schedule":
         vd = run.build()
